@@ -31,6 +31,7 @@ def _configs(tier):
         dict(name="season-day1-net", part="potential", gs=True, reinit=True, dap="one", mulch=False, method=4, ccx=0.96),
         dict(name="fallow-mulch", part="potential", gs=False, reinit=False, dap="zero", mulch=True, method=0, ccx=0.96),
         dict(name="season-mid-mulch", part="potential", gs=True, reinit=False, dap="mid", mulch=True, method=0, ccx=0.96),
+        dict(name="season-mid-mulch-irrigated", part="potential", gs=True, reinit=False, dap="mid", mulch=True, method=1, ccx=0.96),
         dict(name="season-denseCC", part="potential", gs=True, reinit=False, dap="mid", mulch=False, method=0, ccx=0.98),
     ]
     if tier != "quick":
@@ -142,7 +143,7 @@ def h_evap(ctx, cfg):
     if not mulch:
         ctx.prove_independent("C20:mulch factor has no effect without mulches", ["f_mulch"], outs, rerun, since=m0)
         ctx.prove_independent("C20:mulch cover has no effect without mulches", ["mulch_pct"], outs, rerun, since=m0)
-    elif cfg["name"] in ("fallow-mulch", "season-mid-mulch"):
+    elif cfg["name"] in ("fallow-mulch", "season-mid-mulch", "season-mid-mulch-irrigated"):
         # second execution of the real function with mulches off (squares the path count: only in the two small regimes)
         ctx.prove("C20:mulch cover 0 or mulch factor 0 behaves as no mulches (potential evaporation not reduced)",
                   Implies(Or(mulch_pct <= 0, f_mulch <= 0), Or(ss >= 0.000001, approx(espot, _espot_nomulch(ctx, cfg, locals()), 1e-9))))
